@@ -143,6 +143,9 @@ func checkTAAllLiveHoldGrant(e *executor, r *stepResult) *vfkit.Violation {
 	for _, c := range e.m.live() {
 		if _, ok := v.grants[c.ID]; !ok {
 			sig := "live-container-without-grant"
+			if r.Handler == "Synchronize" || r.Handler == "updateConfig" {
+				sig = "exclusive-in-cpuset-of-container-that-could-not-be-reallocated-by-" + r.Handler
+			}
 			return viol("C01", "every created or running container holds an allocation", sig, "after %s: %s has no grant", r.Desc, c.ID)
 		}
 	}
